@@ -25,11 +25,10 @@ CALL = '{ f A B; echo "rc=$?"; wait; }'
 
 # which failure kinds a defect class can explain (None = any).  Repaired and no longer excused (a
 # failure there is a VIOLATION again): compound_redirect_adjacent, procsub_word_double_parens,
-# for_without_in_prints_empty_list, pipe_then_amp_redirect.
+# for_without_in_prints_empty_list, pipe_then_amp_redirect, export_body_not_brace_group.
 CLAUSES = [
     ("heredoc_reprint", "heredoc", None),
     ("multiline_word_indented", "multiline_word_indented", {"ast", "print2", "import_ast", "import_print", "bash_print", "brush_behaviour", "bash_behaviour", "export_brush", "export_bash"}),
-    ("export_body_not_brace_group", "body_not_brace", {"export_bash"}),
 ]
 DEFECT_FEATURES = {c[1] for c in CLAUSES}
 
@@ -58,6 +57,16 @@ def canon_out(d):
     return out
 
 
+def env_func(env0):
+    """value of BASH_FUNC_f%% in a NUL-separated environment dump"""
+    if env0 is None:
+        return None
+    for e in env0.split("\0"):
+        if e.startswith("BASH_FUNC_f%%="):
+            return e[len("BASH_FUNC_f%%="):]
+    return None
+
+
 def shell_case(args):
     src, p1, norun = args
     d = tempfile.mkdtemp(prefix="c14-")
@@ -74,7 +83,7 @@ def shell_case(args):
         bash_child = "%s --norc --noprofile" % lib.BASH
         script = (bs + PRELUDE + src + '\ndeclare -f f > "$D/P1"\ntype f > "$D/T1" 2>/dev/null\n'
                   + ("" if norun else run("r0"))
-                  + 'export -f f p n pc nc; export x y\n'
+                  + 'export -f f p n pc nc; export x y\n/usr/bin/env -0 > "$D/ENV0" 2>/dev/null\n'
                   + ("" if norun else child("r2", brush_child) + child("r3", bash_child))
                   + "%s -c 'declare -f f' > \"$D/XB\" 2>/dev/null\n%s -c 'declare -f f' > \"$D/XP\" 2>/dev/null\n" % (bash_child, brush_child)
                   + 'unset -f f\n. "$D/P1" 2>/dev/null\ndeclare -f f > "$D/P2" 2>/dev/null\n'
@@ -86,7 +95,7 @@ def shell_case(args):
         ro = lib.run_shell("bash", bscript, mode="file", timeout=20, cwd=d)
         rd = lambda f: (open(os.path.join(d, f), errors="replace").read() if os.path.exists(os.path.join(d, f)) else None)
         return {"timeout": rb["timeout"] or ro["timeout"], "P1": rd("P1"), "T1": rd("T1"), "P2": rd("P2"),
-                "BP0": rd("BP0"), "BP1": rd("BP1"), "XB": rd("XB"), "XP": rd("XP"),
+                "BP0": rd("BP0"), "BP1": rd("BP1"), "XB": rd("XB"), "XP": rd("XP"), "XT": env_func(rd("ENV0")),
                 "r0": canon_out(os.path.join(d, "r0")), "r1": canon_out(os.path.join(d, "r1")),
                 "r2": canon_out(os.path.join(d, "r2")), "r3": canon_out(os.path.join(d, "r3")),
                 "b0": canon_out(os.path.join(d, "b0")), "b1": canon_out(os.path.join(d, "b1"))}
@@ -98,10 +107,14 @@ def parse_h(line):
     return dict(x.split("=", 1) for x in line.split(" ") if "=" in x)
 
 
-def failures(h, sh, norun):
-    """the property evaluated on brush's real behaviour; returns {kind: detail}"""
+def failures(h, sh, norun, brace=True, after_import=None):
+    """the property evaluated on brush's real behaviour; returns {kind: detail}.
+    `after_import`: what a shell that imported the exported text prints (the definition itself for a brace-group
+    body; for any other body the brace group holding it, as in bash)."""
     f = {}
     p1 = unesc(h["P1"])
+    if after_import is None:
+        after_import = p1
     if h["R"] != "ok":
         f["reparse"] = "the printed text does not define the function again in brush (%s)" % h["R"]
     else:
@@ -109,12 +122,16 @@ def failures(h, sh, norun):
             f["ast"] = "the printed text parses to a different definition (ASTs with locations erased differ)"
         if unesc(h["P2"]) != p1:
             f["print2"] = "printing is not a fixed point: second print differs from the first"
+    if h.get("X", "-") == "-":
+        f["import"] = "an exported function is missing from the environment brush composes for a child process"
+    elif not unesc(h["X"]).startswith("() {"):
+        f["export_bash"] = "the exported text does not start with `() {`: bash will not import it"
     if h["I"] != "ok":
-        f["import"] = "the exported text `() body` is rejected by define_func_from_str"
+        f.setdefault("import", "the exported text is rejected by define_func_from_str")
     else:
-        if h["IA"] != "same":
+        if brace and h["IA"] != "same":
             f["import_ast"] = "the exported text imports as a different definition"
-        if unesc(h["P3"]) != p1:
+        if unesc(h["P3"]) != after_import:
             f["import_print"] = "the imported definition prints differently"
     if sh is None:
         return f
@@ -131,7 +148,9 @@ def failures(h, sh, norun):
             f["brush_behaviour"] = "the function re-defined from its printed text behaves differently in brush"
         if sh["r0"] is not None and sh["r2"] != sh["r0"]:
             f["export_brush"] = "the function exported to a child brush behaves differently"
-    if sh["XP"] is not None and sh["P1"] is not None and sh["XP"] != sh["P1"] and "import" not in f:
+    if sh.get("XT") is not None and h.get("X", "-") != "-" and sh["XT"] != unesc(h["X"]):
+        f["declare_f_vs_display"] = "the BASH_FUNC_f%% value a real child receives differs from the in-process export text"
+    if sh["XP"] is not None and sh["P1"] is not None and sh["XP"] != after_import + "\n" and "import" not in f:
         f.setdefault("export_brush", "a child brush prints the exported function differently (or did not import it)")
     if sh["BP0"]:          # bash accepted the source: bash is an oracle for the printed text
         if not sh["BP1"]:
@@ -225,7 +244,12 @@ def judge(ctx, r, nviol):
         if k.startswith("k_") or k in ("time", "bang", "nested_function", "heredoc", "procsub_redirect", "rich_word"):
             ctx.bucket("has_" + k)
     md = dict(x.split("=", 1) for x in m.split(" ") if "=" in x)
-    fl = failures(h, r["sh"], r["norun"])
+    brace = t[2][0] == "brace"
+    fl = failures(h, r["sh"], r["norun"], brace, unesc(md["W"]) if "W" in md else None)
+    if "P" in md and md["P"] == h["P1"] and h.get("X", "-") != "-" and md.get("X") != h["X"] and nviol[0] < 10:
+        nviol[0] += 1
+        ctx.violation("export-text model and brush's compose_std_command disagree (correspondence broken)",
+                      dict(case, brush=unesc(h["X"]), model=unesc(md.get("X", "%"))), kind="correspondence")
     if "P" not in md or md["P"] != h["P1"]:
         if nviol[0] < 10:
             nviol[0] += 1
@@ -305,11 +329,12 @@ def replay(ctx, rp):
     print("harness:", {k: v for k, v in r["h"].items() if k not in ("P1", "P2", "P3")})
     if r["h"].get("D") != "ok":
         return 1
-    fl = failures(r["h"], r["sh"], r["norun"])
+    fl = failures(r["h"], r["sh"], r["norun"], t[2][0] == "brace", unesc(md["W"]) if "W" in md else None)
+    print("exported text:\n%s\nmodel:\n%s" % (unesc(r["h"].get("X", "%")), unesc(md.get("X", "%"))))
     if r["sh"]:
         print("bash prints the source as:\n%s\nbash prints brush's text as:\n%s" % (r["sh"]["BP0"], r["sh"]["BP1"]))
     for k, v in fl.items():
         print("property fails [%s]: %s (clause: %s)" % (k, v, explain(k, r["fs"])))
     if not fl:
         print("property holds on this case")
-    return 1 if (fl or md.get("P") != r["h"]["P1"]) else 0
+    return 1 if (fl or md.get("P") != r["h"]["P1"] or md.get("X") != r["h"].get("X")) else 0
